@@ -24,7 +24,7 @@ type Case struct {
 	N    int     `json:"n"`
 	Over int     `json:"over,omitempty"` // >0: the (full) root got this many AppendSample calls, all rejected, before the window was sliced
 	Fix  int     `json:"fix,omitempty"`  // fixture construction order, see kit.RootWindow; 3 = buffer produced by a growing Append (see runGrown)
-	Vals []int64 `json:"vals"`           // 0..127: representable in every element type
+	Vals []int64 `json:"vals"`           // 0..127: representable in every element type; 128..133: -0, subnormals, +Inf, -Max, a fraction (floating types)
 	// Fix 3 only: the buffer under test is the window [Ws,We) (frames) of the grown buffer
 	Win bool `json:"win,omitempty"`
 	Ws  int  `json:"ws,omitempty"`
@@ -61,7 +61,7 @@ func Check(c *Case) kit.Result {
 			return kit.Result{}
 		}
 		for _, v := range c.Vals {
-			if v < 0 || v > 128 {
+			if v < 0 || v > 133 {
 				return kit.Result{}
 			}
 		}
@@ -71,7 +71,7 @@ func Check(c *Case) kit.Result {
 		return kit.Result{}
 	}
 	for _, v := range c.Vals {
-		if v < 0 || v > 128 {
+		if v < 0 || v > 133 {
 			return kit.Result{}
 		}
 	}
@@ -85,10 +85,36 @@ func Check(c *Case) kit.Result {
 // and never change the capacity or the storage.
 // val maps a case value to a sample: 128 is the negative zero of floating types (0 for integer types).
 func val[T signal.SignalTypes](x int64) T {
-	if x == 128 {
-		return kit.As[T](kit.FV(math.Copysign(0, -1)))
+	if x < 128 {
+		return T(x)
 	}
-	return T(x)
+	if kit.KindOf[T]() != kit.Float {
+		return T(x % 100) // the special codes below only mean something for the floating types
+	}
+	f32 := kit.BitsOf[T]() == 32
+	switch x {
+	case 128:
+		return kit.As[T](kit.FV(math.Copysign(0, -1)))
+	case 129: // subnormal values (stored as they are, bit for bit)
+		if f32 {
+			return kit.As[T](kit.FV(float64(math.SmallestNonzeroFloat32) * 3))
+		}
+		return kit.As[T](kit.FV(math.SmallestNonzeroFloat64 * 3))
+	case 130:
+		if f32 {
+			return kit.As[T](kit.FV(-float64(math.SmallestNonzeroFloat32)))
+		}
+		return kit.As[T](kit.FV(-math.SmallestNonzeroFloat64))
+	case 131:
+		return kit.As[T](kit.FV(math.Inf(1)))
+	case 132:
+		if f32 {
+			return kit.As[T](kit.FV(-math.MaxFloat32))
+		}
+		return kit.As[T](kit.FV(-math.MaxFloat64))
+	default: // 133: not a whole number
+		return kit.As[T](kit.FV(0.3125))
+	}
 }
 
 func runGrown[T signal.SignalTypes](c *Case) (res kit.Result) {
@@ -329,7 +355,7 @@ func Gen(t *rapid.T) *Case {
 	}
 	nv := rapid.IntRange(1, 6).Draw(t, "nvals")
 	for i := 0; i < nv; i++ {
-		c.Vals = append(c.Vals, int64(rapid.IntRange(0, 128).Draw(t, "v")))
+		c.Vals = append(c.Vals, int64(rapid.IntRange(0, 133).Draw(t, "v")))
 	}
 	return c
 }
